@@ -3946,7 +3946,9 @@ public:
 #endif
 
 #if SBEPP_HAS_THREE_WAY_COMPARISON
-    constexpr friend std::strong_ordering
+    // `strong_ordering` for integral types, `partial_ordering` for
+    // floating-point ones
+    constexpr friend std::compare_three_way_result_t<value_type>
         operator<=>(const optional_base& lhs, const optional_base& rhs) noexcept
     {
         if(lhs && rhs)
